@@ -108,6 +108,44 @@ def normalise(results) -> list:
     return out
 
 
+def sibling_continuations(chk: Check) -> None:
+    """Sibling paths of one transaction: a creation whose constructor ends on two paths resumes its creator twice; each
+    continuation then runs a loop of at most two iterations (n <= 2, --loop 3).  What one continuation counted (visits of the
+    loop's JUMPI) is not the other's business: every input is covered and no bound is reported."""
+    from harness.asm import assemble
+    from harness.e1corpus import Item, describe, run_items
+    from harness.hrun import TARGET, Prog, Sym
+
+    # init code: if (calldata of the creator's x == 0) deploy 1 byte else deploy 2 bytes  (x is passed as the init code's trailing word)
+    init = assemble([("PUSH", 0x20), "CODESIZE", "SUB", ("PUSH", 0x20), "SWAP1", ("PUSH", 0), "CODECOPY", ("PUSH", 0), "MLOAD", ("PUSHL", "two"), "JUMPI",
+                     ("PUSH", 1), ("PUSH", 0), "RETURN", ("LABEL", "two"), ("PUSH", 2), ("PUSH", 0), "RETURN"])
+    n_init = len(init)
+    body = [("PUSHN", n_init, int.from_bytes(init, "big")), ("PUSH", 0x100), "MSTORE", ("PUSH", 0), "CALLDATALOAD", ("PUSH", 0x120), "MSTORE",
+            ("PUSH", n_init + 32), ("PUSH", 0x120 - n_init), ("PUSH", 0), "CREATE", "EXTCODESIZE", ("PUSH", 0), "MSTORE",
+            # require(n <= 2)
+            ("PUSH", 2), ("PUSH", 32), "CALLDATALOAD", "GT", ("PUSHL", "rev"), "JUMPI",
+            # i = 0; head: if (!(i < n)) goto done; i++; goto head   (the path that stays in the loop is the fall-through side)
+            ("PUSH", 0), ("LABEL", "head"), ("PUSH", 32), "CALLDATALOAD", "DUP2", "LT", "ISZERO", ("PUSHL", "done"), "JUMPI",
+            ("PUSH", 1), "ADD", ("PUSHL", "head"), "JUMP",
+            ("LABEL", "done"), ("PUSH", 32), "MSTORE", ("PUSH", 64), ("PUSH", 0), "RETURN",
+            ("LABEL", "rev"), ("PUSH", 0), ("PUSH", 0), "REVERT"]
+    prog = Prog(accounts={TARGET: assemble(body)}, calldata=[Sym("cd0", 256), Sym("cd1", 256)], name="sibling-continuations")
+    inputs = [{"cd0": x, "cd1": n} for x in (0, 1, 1 << 200) for n in (0, 1, 2, 3)]
+    it = Item(prog, inputs, cli=("--loop", "3"), key="probe:sibling-continuations")
+    outs = run_items([it], chk, witnesses=False)
+    from checks.c01 import judge
+
+    judge(chk, outs)
+    chk.nontrivial(("sibling-continuations",))
+    if it.hr.bounded:
+        chk.violation("sibling-continuations:bound-reported", "creator resumed on two paths after a constructor with two endings, then a loop of at most 2 iterations under --loop 3: "
+                      "a loop bound is reported although no input needs more than two iterations (the second continuation started with the visit counts of the first)",
+                      {"bounded": it.hr.bounded, "paths": len(it.hr.paths)})
+    for o in outs:
+        if not o.covered and not o.skipped and not o.match.unevaluable:
+            chk.violation("sibling-continuations:uncovered", f"no reported path covers input {o.inp} (a continuation of the creator lost its later loop iterations)", describe(o))
+
+
 def run(chk: Check, tier: str):
     work = workdir("c20")
     try:
@@ -216,6 +254,7 @@ def run(chk: Check, tier: str):
     from harness import mainrun_replay
 
     mainrun_replay.phase(chk, tier, {"verdicts", "selection", "order"}, "main-run")
+    sibling_continuations(chk)
     chk.cov["rule"] = (
         "all orders with repetition of <= 2 (quick: all of length 1, every writer-then-reader pair, 30 sampled others of length 2) / <= 3 (thorough) of 21 tests "
         "(writers and readers of storage, transient storage, a balance, created code, block timestamp; two tests calling the symbolic address "
